@@ -50,6 +50,7 @@ inductive Chunk
   | hdr                              -- 20-byte log-file header (`logFile.bootstrap`)
   | walEnt (ts : Nat) (e : CEnt)     -- WAL record carrying `bitTxn`, transaction timestamp `ts`
   | walFin (ts : Nat)                -- the `bitFinTxn` end-of-transaction record
+  | walPlain (e : CEnt)              -- WAL record without transaction bits (value-log GC write-back)
   | vEnt (key : Bytes) (ver : Nat)   -- value-log record
   | table (es : List CEnt)           -- the complete image of one SSTable
   | mhdr                             -- MANIFEST magic + version
